@@ -28,7 +28,7 @@ Lookup(s, m) == LET r == SelectSeq(s, LAMBDA x : x.m = m) IN IF r = <<>> THEN [m
 TInit ==
     /\ l = 1 /\ tg = NoTg
     /\ Init
-    /\ conf = [useLogger |-> TRUE, recheck |-> TRUE, safeEnv |-> TRUE, locks |-> TRUE, eager |-> TRUE, rt |-> TRUE, disc |-> TRUE, fatalEvery |-> 0]
+    /\ conf = [useLogger |-> TRUE, recheck |-> TRUE, safeEnv |-> TRUE, locks |-> TRUE, eager |-> TRUE, rt |-> TRUE, disc |-> TRUE, fatalEvery |-> 0, rehome |-> TRUE]
     /\ todo = [t \in Producers |-> <<>>]
     /\ script = [s \in Stoppers |-> <<>>]
 
